@@ -531,14 +531,38 @@ func guarded(data []byte) (cp []byte, free func()) {
 
 func parseBounded(name string, data []byte) (f *counter.File, err error) {
 	simrt.ResetSchedTick()
-	if len(data)%8 == 0 {
+	// Parse is handed a buffer of its own: the result must not depend on what
+	// becomes of that buffer afterwards (a caller may reuse or unmap it). The
+	// buffer is overwritten once Parse has returned and the result is copied
+	// only then: names or values that alias the input show up as wrong.
+	own := append([]byte(nil), data...)
+	scrub := func() {
+		for i := range own {
+			own[i] = 0xAA
+		}
+	}
+	if len(own)%8 == 0 {
 		// (a file image of a whole number of words, as every file the library
 		// wrote: the copy keeps the alignment a caller's buffer has)
-		cp, free := guarded(data)
-		data = cp
+		cp, free := guarded(own)
+		own = cp
 		defer free()
 		defer debug.SetPanicOnFault(debug.SetPanicOnFault(true))
 	}
+	data = own
+	defer func() {
+		if f != nil {
+			scrub()
+			cl := &counter.File{Meta: map[string]string{}, Count: map[string]uint64{}}
+			for k, v := range f.Meta {
+				cl.Meta[strings.Clone(k)] = strings.Clone(v)
+			}
+			for k, v := range f.Count {
+				cl.Count[strings.Clone(k)] = v
+			}
+			f = cl
+		}
+	}()
 	defer func() {
 		if r := recover(); r != nil {
 			if ul, ok := r.(simrt.UnboundedLoop); ok {
